@@ -35,12 +35,61 @@ pub fn timestamp(_cex: &Value) -> Result<String, String> {
               log.push(format!("[parse] {s:?} parsed to {unix}, denotes {denoted}"));
             }
             match text {
-              Err(msg) => log.push(format!("[format-panic] formatting the timestamp parsed from {s:?} panicked: {msg}")),
+              Err(msg) => log.push(format!("[parse-format-panic] formatting the timestamp parsed from {s:?} panicked: {msg}")),
               Ok(text) => {
                 if Timestamp::parse(&text).ok().map(|t| t.to_unix()) != Some(unix) {
-                  log.push(format!("[format] {s:?} -> {text:?} does not parse back"));
+                  log.push(format!("[parse-format] {s:?} -> {text:?} does not parse back"));
                 }
               }
+            }
+          }
+        }
+      }
+    }
+  }
+  // leap seconds, all-nines fractions and range edges reached only through an offset: accepted values are canonical whole
+  // seconds (equal to from_unix of their own unix value, 20 characters when formatted), truncated - never rounded - and in range
+  let special: Vec<(String, Option<i64>)> = vec![
+    ("2016-12-31T23:59:60Z".into(), Some(1483228799)),
+    ("2016-12-31T23:59:60.5Z".into(), Some(1483228799)),
+    ("2016-12-31T23:59:60.999999999Z".into(), Some(1483228799)),
+    ("2017-01-01T00:59:60+01:00".into(), Some(1483228799)),
+    ("2016-12-31T18:29:60-05:30".into(), Some(1483228799)),
+    ("9999-12-31T23:59:60Z".into(), Some(MAX)),
+    ("1972-06-30T23:59:60Z".into(), Some(78796799)),
+    ("2024-02-29T12:34:56.999999999Z".into(), Some(1709210096)),
+    ("2024-02-29T12:34:56.99999999Z".into(), Some(1709210096)),
+    ("2024-02-29T12:34:56.9999999999Z".into(), Some(1709210096)),
+    ("2024-02-29T12:34:59.999999999+00:00".into(), Some(1709210099)),
+    ("2024-02-29T23:59:59.999999999Z".into(), Some(1709251199)),
+    ("9999-12-31T23:59:59.999999999Z".into(), Some(MAX)),
+    ("0000-01-01T00:00:59.999999999+00:01".into(), None),
+    ("0000-01-01T00:00:00.999999999Z".into(), Some(MIN)),
+    ("1969-12-31T23:59:59.999999999Z".into(), Some(-1)),
+    ("1970-01-01T00:00:00.999999999Z".into(), Some(0)),
+  ];
+  for (s, want) in special {
+    let s2 = s.clone();
+    match no_panic(move || Timestamp::parse(&s2).ok().map(|t| (t, t.to_unix(), no_panic(move || t.to_rfc3339())))) {
+      Err(msg) => log.push(format!("[parse-panic] Timestamp::parse({s:?}) panicked: {msg}")),
+      Ok(None) => {
+        // a leap second may be refused; an ordinary instant inside the range may not
+        if want.is_some() && !s.contains(":60") {
+          log.push(format!("[parse-special] {s:?} rejected"));
+        }
+      }
+      Ok(Some((t, unix, text))) => {
+        if want != Some(unix) {
+          log.push(format!("[parse-special] {s:?} parsed to unix {unix}, expected {want:?} (truncation to the second, inside 0000..9999)"));
+        }
+        if Timestamp::from_unix(unix).ok() != Some(t) {
+          log.push(format!("[parse-special] {s:?}: the parsed value is not the canonical whole-second instant of its unix seconds"));
+        }
+        match text {
+          Err(msg) => log.push(format!("[parse-format-panic] formatting the timestamp parsed from {s:?} panicked: {msg}")),
+          Ok(text) => {
+            if text.len() != 20 || Timestamp::parse(&text).ok() != Some(t) {
+              log.push(format!("[parse-format] {s:?} formats as {text:?}, which is not the 20-character form that parses back to the same value"));
             }
           }
         }
